@@ -38,7 +38,9 @@ LEVEL_TEXT = ("Lean 4 proofs over the run-option keys/defaults REGENERATED from 
               "=> hide both minus overridden streams, stdin disconnected unless given; asynchronous+disown => ValueError and "
               "unknown kwarg => TypeError before start), normalize_hide_table, generate_env, prefix_composition / "
               "nested_prefixes_in_order / nested_cds_in_order, prefix_stack_restored (any nesting, normal or exceptional exit, by "
-              "induction over block programs), sudo_command / sudo_wraps_prefixed_command; the models are tied to the "
+              "induction over block programs), sudo_command / sudo_wraps_prefixed_command, reused_runner_starts_like_fresh (RunnerState "
+              "table regenerated from the real Local: no option, watcher list or codec of an earlier run on the same runner object is in "
+              "effect); the models are tied to the "
               "implementation on every run by the generated tables and a differential correspondence check through the real "
               "Runner and Context, plus a direct oracle")
 TECHNIQUE = "Lean 4 theorems (list/assoc-list induction, decide on regenerated tables) + model/implementation correspondence with a capturing runner"
